@@ -48,6 +48,19 @@ func (c *cutConn) Read(p []byte) (int, error) {
 }
 func (c *cutConn) Write(p []byte) (int, error) { return len(p), nil }
 
+// failWriter accepts a few bytes and then fails, like a connection the peer has closed
+type failWriter struct{ left int }
+
+func (w *failWriter) Write(p []byte) (int, error) {
+	if len(p) <= w.left {
+		w.left -= len(p)
+		return len(p), nil
+	}
+	n := w.left
+	w.left = 0
+	return n, io.ErrClosedPipe
+}
+
 func genC09(cs *CaseSet, rng *Rng, tier string, dir string) {
 	cs.Rule = "at least one cut falls strictly inside the stream (preamble, flattened-file header or data) before completion; distinct by (data, name, cut sequence)"
 	nHist := 40
@@ -411,6 +424,11 @@ func genC08(cs *CaseSet, rng *Rng, tier string, dir string) {
 			fsz := res[0].GetField(hotline.FieldFileSize).Data
 			ft := env.Srv.FileTransferMgr.Get(ref)
 			full, _ := hotline.ReadPath(ft.FileRoot, ft.FilePath, ft.FileName)
+			// every third download follows one whose client hung up while the header was being sent (the write fails
+			// after a few bytes): what that one left behind must not show up in this one
+			if n%3 == 0 {
+				hotline.DownloadHandler(&failWriter{left: rng.Intn(150)}, full, ft, env.Srv.FS, discardLogger, true)
+			}
 			var got bytes.Buffer
 			hotline.DownloadHandler(&got, full, ft, env.Srv.FS, discardLogger, true)
 			env.Srv.FileTransferMgr.Delete(ref)
